@@ -13,7 +13,7 @@ FOCUS_SETS = [
     ['word', 'inline', 'display', 'mathtext', 'ref', 'cite', 'citeopt', 'footnote', 'usermac'],
     ['word', 'verb', 'verbatim', 'comment', 'skip', 'ltskip', 'label', 'vanish', 'unk', 'atom', 'accent'],
     ['word', 'footnote', 'caption', 'footcite', 'textcolor', 'unkarg', 'unkenv', 'figure', 'tabular', 'usermac2'],
-    ['word', 'gls', 'usermacopt', 'usermacoptonly', 'latexname', 'textbackslash', 'ref', 'cite', 'theorem', 'proof', 'enumerate'],
+    ['word', 'gls', 'cref', 'usermacopt', 'usermacoptonly', 'latexname', 'textbackslash', 'ref', 'cite', 'theorem', 'proof', 'enumerate'],
     ['word', 'tikz', 'lstlisting', 'removed_ext', 'skip', 'comment', 'minipage', 'par', 'newline', 'quad', 'hspace'],
     ['word', 'atom', 'accent', 'group', 'emph', 'unkarg2', 'href', 'texorpdf', 'framebox', 'ltadd', 'ltalter'],
 ]
@@ -30,6 +30,9 @@ class DocCheck(core.Check):
         self.gls = os.path.join(self.tmp, 'y.glsdefs')
         with open(self.gls, 'w') as f:
             f.write(gdocs.GLSDEFS)
+        self.sed = os.path.join(self.tmp, 'y.sed')
+        with open(self.sed, 'w') as f:
+            f.write(gdocs.CREFSED)
 
     def teardown(self):
         shutil.rmtree(self.tmp, ignore_errors=True)
@@ -42,6 +45,8 @@ class DocCheck(core.Check):
             pack = rnd.choice(gdocs.PACK_CHOICES)
             if FOCUS_SETS[focus] and ('removed_ext' in FOCUS_SETS[focus] or 'twice_ext' in FOCUS_SETS[focus]):
                 pack = '*,.yvm.ext'
+            if FOCUS_SETS[focus] and 'cref' in FOCUS_SETS[focus] and rnd.random() < .7:
+                pack = '*'
             yield dict(docseed=rnd.getrandbits(48), lang=rnd.choice(['en', 'en', 'en', 'de', 'ru']),
                        focus=focus, size=rnd.randint(2, 9),
                        depth=rnd.choice([3, 5, 5, 7] if tier == 'quick' else [3, 5, 7, 9, 12]),
@@ -55,7 +60,7 @@ class DocCheck(core.Check):
         rnd = random.Random(case['docseed'])
         d = gdocs.random_document(rnd, size=case['size'], lang=case['lang'], kinds=FOCUS_SETS[case['focus']],
                                   max_depth=case['depth'], glossary_file=self.gls if case['gls'] else None,
-                                  end_pressure=case['endp'], pack=case['pack'])
+                                  end_pressure=case['endp'], pack=case['pack'], cref_file=self.sed)
         return d
 
     def run_doc(self, case):
